@@ -6,7 +6,7 @@
 (* it reads - so that a report keyed by name or by offset alone loses a location.        *)
 EXTENDS LiquidGen, LiquidAst
 
-MCData == { << <<<<"x", Str("ex")>>, <<"y", Str("why")>>, <<"q", Str("cue")>>, <<"z", Bool(zz)>>, <<"card", Hash(<< <<"title", Str("T")>> >>)>>>>, <<>>, <<>>, <<>> >>
+MCData == { << <<<<"x", Str("ex")>>, <<"y", Str("why")>>, <<"q", Str("cue")>>, <<"z", Bool(zz)>>, <<"card", Hash(<< <<"title", Str("T")>>, <<"owner", Str("O")>> >>)>>>>, <<>>, <<>>, <<>> >>
             : zz \in BOOLEAN }
 MCCfgs == {Cfg("+", TRUE, FALSE, "default")}
 Up(v) == F(V(v), <<Fl("upcase", <<>>)>>)
@@ -17,12 +17,14 @@ MCPartials == <<
   <<"c1", <<If(V("z"), <<Include(S("a1"), "none", NilE, "", <<>>)>>, <<>>, NoElse)>>>>,
   <<"rb", <<NText("<"), Block("k", TRUE, <<NOut(F(V("q"), <<Fl("downcase", <<>>)>>)), Assign("rbv", P(V("x")))>>), NText(">")>>>>,
   <<"rc", <<Extends("rb"), Block("k", FALSE, <<NOut(P(VP("block", "super"))), NOut(P(V("y")))>>)>>>>,
-  <<"card", <<NOut(P(VP("card", "title"))), NOut(F(V("q"), <<Fl("downcase", <<>>)>>))>>>> >>
+  <<"card", <<NOut(P(VP("card", "title"))), NOut(F(V("q"), <<Fl("downcase", <<>>)>>))>>>>,
+  \* another path of the same root at the very same offsets of another template
+  <<"card2", <<NOut(P(VP("card", "owner"))), NOut(F(V("q"), <<Fl("downcase", <<>>)>>))>>>> >>
 
 MCPoolAt(i) ==
   IF i <= 3 THEN {Assign("u", Up("q")), RenderT(S("a1"), "none", NilE, "", <<>>), Include(S("b1"), "none", NilE, "", <<>>), Include(S("b2"), "none", NilE, "", <<>>),
                   Include(S("c1"), "none", NilE, "", <<>>), RenderT(S("b1"), "none", NilE, "", <<WArg("y", V("q"))>>), NOut(P(V("u"))),
-                  RenderT(S("card"), "none", NilE, "", <<>>), Include(S("card"), "none", NilE, "", <<>>), RenderT(S("card"), "with", V("x"), "", <<>>),
+                  RenderT(S("card"), "none", NilE, "", <<>>), Include(S("card"), "none", NilE, "", <<>>), Include(S("card2"), "none", NilE, "", <<>>), RenderT(S("card"), "with", V("x"), "", <<>>),
                   NOut(F(V("q"), <<Fl("downcase", <<>>)>>)), Include(S("rc"), "none", NilE, "", <<>>), RenderT(S("rc"), "none", NilE, "", <<>>),
                   \* the same partial twice with the same argument names, then a read of such a name
                   Include(S("b1"), "none", NilE, "", <<WArg("y", V("q"))>>), Include(S("b1"), "none", NilE, "", <<WArg("y", V("x"))>>), NOut(P(V("y")))}
